@@ -14,6 +14,7 @@ CONSTANTS Shapes, IdSets, KeyChoices, CoeffChoices, RandChoices, MsgA, MsgB,
           Kinds,                 \* subset of {"add","neg","zero","other","sessB"}
           Modes,                 \* sequence of detection modes to run
           MaxCheaters,           \* at most this many slots are not honest (size sweeps)
+          CoordPkps,             \* the coordinator's public key package: subset of {"current", "legacy"}
           EMIT
 
 VARIABLES pc, sc
@@ -48,9 +49,16 @@ Choose ==
   /\ pc[1] = "choose"
   /\ \E S \in (IF sc.t = sc.n THEN {{sc.ids[k] : k \in 1..sc.n}} ELSE SUBSET {sc.ids[k] : k \in 1..sc.n}) :
        /\ Card(S) >= sc.t /\ Card(S) <= sc.t + MaxExtra
-       /\ sc' = sc @@ [S |-> Sorted(S)]
-  /\ pc' = <<"commitA", 1>>
+       /\ \E ck \in CoordPkps : sc' = sc @@ [S |-> Sorted(S), coord |-> ck]
+  /\ pc' = <<"mkleg", 0>>
   /\ UNCHANGED fvars
+
+CPKP == IF sc.coord = "legacy" THEN <<"pkpLeg", 0>> ELSE PKP
+MkLegacy ==
+  /\ pc[1] = "mkleg"
+  /\ IF sc.coord = "legacy" THEN ActLieMin(<<"pkpLeg", 0>>, PKP, -1) ELSE UNCHANGED fvars
+  /\ pc' = <<"commitA", 1>>
+  /\ UNCHANGED sc
 
 DoCommit(ph, nn, cn, next) ==
   /\ pc[1] = ph
@@ -127,7 +135,7 @@ DoVerifyShare ==
 
 DoAggregate ==
   /\ pc[1] = "agg"
-  /\ ActAggregate(<<"sig", pc[2]>>, PKGA, sc.slot, PKP, Modes[pc[2]])
+  /\ ActAggregate(<<"sig", pc[2]>>, PKGA, sc.slot, CPKP, Modes[pc[2]])
   /\ pc' = IF last'.res.ok THEN <<"verify", pc[2]>>
            ELSE IF pc[2] = Len(Modes) THEN <<"done", 0>> ELSE <<"agg", pc[2] + 1>>
   /\ UNCHANGED sc
@@ -138,7 +146,7 @@ DoVerify ==
   /\ pc' = IF pc[2] = Len(Modes) THEN <<"done", 0>> ELSE <<"agg", pc[2] + 1>>
   /\ UNCHANGED sc
 
-Next == KeyGen \/ MakeKp \/ Choose
+Next == MkLegacy \/ KeyGen \/ MakeKp \/ Choose
         \/ DoCommit("commitA", "nonA", "commA", IF UseB THEN <<"commitB", 1>> ELSE <<"packageA", 0>>)
         \/ DoCommit("commitB", "nonB", "commB", <<"packageA", 0>>)
         \/ DoPackage("packageA", PKGA, "commA", MsgA, IF UseB THEN <<"packageB", 0>> ELSE <<"signA", 1>>)
